@@ -47,6 +47,10 @@ class BaseGotranODECodePrinter(StrPrinter):
     def _print_Or(self, expr):
         return f"Or({', '.join(self._print(a) for a in expr.args)})"
 
+    def _print_Not(self, expr):
+        # StrPrinter writes '~(..)', which the loader cannot build an expression from
+        return f"Not({self._print(expr.args[0])})"
+
     def _print_And(self, expr):
         return f"And({', '.join(self._print(a) for a in expr.args)})"
 
